@@ -68,7 +68,8 @@ def ds9_visual(cls):
     if shp == 'Point':
         opt = {'color': st.sampled_from(COLORS),
                'marker': st.sampled_from(['o', 's', 'D', 'x', '+']),
-               'markersize': st.integers(3, 30),
+               'markersize': st.one_of(st.integers(3, 30),
+                                       st.sampled_from([12.0, 7.0, 20.0])),
                'markeredgewidth': st.integers(1, 4)}
     if shp == 'Text':
         opt = {'color': st.sampled_from(COLORS),
